@@ -62,25 +62,25 @@ class RefGroupedList:
 
     def find(self, k):
         for i, (kk, _) in enumerate(self.g):
-            if kk == k:
+            if norm(kk) == norm(k):
                 return i
         raise KeyError(k)
 
     def get(self, k):
         for kk, m in self.g:
-            if kk == k:
+            if norm(kk) == norm(k):
                 return list(m)
         return []
 
     def group_of(self, v):
         for k, m in self.g:
-            if any(v == e for e in m):
+            if any(norm(v) == norm(e) for e in m):
                 return (True, k)
         return (False, v)
 
     # operations -----------------------------------------------------------------------------
     def group(self, d, k):
-        if d == k:
+        if norm(d) == norm(k):
             return
         i = self.find(d)
         md = self.g[i][1]
